@@ -134,4 +134,88 @@ theorem src_format_parsed_rs_fn_to_naive_datetime_with_offset : C14_src_format_p
 theorem src_format_parsed_rs_fn_to_naive_time : C14_src_format_parsed_rs_fn_to_naive_time =
     ["&", "self", "->", "ParseResult", "<", "NaiveTime", ">", "v1", "match", "self", "v1", "Some(", "v2", "0", "..=", "1", "=>", "v2", "Some(", "v3", "=>", "return", "Err(", "OUT_OF_RANGE", "None", "=>", "return", "Err(", "NOT_ENOUGH", "v4", "match", "self", "v4", "Some(", "v2", "0", "..=", "11", "=>", "v2", "Some(", "v3", "=>", "return", "Err(", "OUT_OF_RANGE", "None", "=>", "return", "Err(", "NOT_ENOUGH", "v5", "v1", "*", "12", "+", "v4", "v6", "match", "self", "v6", "Some(", "v2", "0", "..=", "59", "=>", "v2", "Some(", "v3", "=>", "return", "Err(", "OUT_OF_RANGE", "None", "=>", "return", "Err(", "NOT_ENOUGH", "let(", "v7", "v8", "match", "self", "v7", "unwrap_or(", "0", "v2", "0", "..=", "59", "=>", "v2", "0", "60", "=>", "59", "1000000000", "v3", "=>", "return", "Err(", "OUT_OF_RANGE", "v8", "+=", "match", "self", "v9", "Some(", "v2", "0", "..=", "999999999", "if", "self", "v7", "is_some(", "=>", "v2", "Some(", "0", "..=", "999999999", "=>", "return", "Err(", "NOT_ENOUGH", "Some(", "v3", "=>", "return", "Err(", "OUT_OF_RANGE", "None", "=>", "0", "NaiveTime", "from_hms_nano_opt(", "v5", "v6", "v7", "v8", "ok_or(", "OUT_OF_RANGE"] := by decide +kernel
 
+/-- callee src/datetime/mod.rs:fn from_naive_utc_and_offset -/
+theorem callee_src_datetime_mod_rs_fn_from_naive_utc_and_offset : C14_callee_src_datetime_mod_rs_fn_from_naive_utc_and_offset =
+    ["v1", "NaiveDateTime", "v2", "Tz", "Offset", "->", "DateTime", "<", "Tz", ">", "DateTime", "v1", "v2"] := by decide +kernel
+
+/-- callee src/naive/date/mod.rs:fn from_isoywd_opt -/
+theorem callee_src_naive_date_mod_rs_fn_from_isoywd_opt : C14_callee_src_naive_date_mod_rs_fn_from_isoywd_opt =
+    ["v1", "i32", "v2", "u32", "v3", "Weekday", "->", "Option", "<", "NaiveDate", ">", "v4", "YearFlags", "from_year(", "v1", "v5", "v4", "nisoweeks(", "if", "v2", "==", "0", "||", "v2", ">", "v5", "return", "None", "v6", "v2", "*", "7", "+", "v3", "as", "u32", "v7", "v4", "isoweek_delta(", "let(", "v1", "v8", "v4", "if", "v6", "<=", "v7", "v9", "try_opt!(", "v1", "checked_sub(", "1", "v10", "YearFlags", "from_year(", "v9", "v9", "v6", "+", "v10", "ndays(", "-", "v7", "v10", "else", "v8", "v6", "-", "v7", "v11", "v4", "ndays(", "if", "v8", "<=", "v11", "v1", "v8", "v4", "else", "v12", "try_opt!(", "v1", "checked_add(", "1", "v13", "YearFlags", "from_year(", "v12", "v12", "v8", "-", "v11", "v13", "NaiveDate", "from_ordinal_and_flags(", "v1", "v8", "v4"] := by decide +kernel
+
+/-- callee src/naive/date/mod.rs:fn from_mdf -/
+theorem callee_src_naive_date_mod_rs_fn_from_mdf : C14_callee_src_naive_date_mod_rs_fn_from_mdf =
+    ["v1", "i32", "v2", "Mdf", "->", "Option", "<", "NaiveDate", ">", "if", "v1", "<", "MIN_YEAR", "||", "v1", ">", "MAX_YEAR", "return", "None", "Some(", "NaiveDate", "from_yof(", "v1", "<<", "13", "|", "try_opt!(", "v2", "ordinal_and_flags("] := by decide +kernel
+
+/-- callee src/naive/date/mod.rs:fn from_ordinal_and_flags -/
+theorem callee_src_naive_date_mod_rs_fn_from_ordinal_and_flags : C14_callee_src_naive_date_mod_rs_fn_from_ordinal_and_flags =
+    ["v1", "i32", "v2", "u32", "v3", "YearFlags", "->", "Option", "<", "NaiveDate", ">", "if", "v1", "<", "MIN_YEAR", "||", "v1", ">", "MAX_YEAR", "return", "None", "if", "v2", "==", "0", "||", "v2", ">", "366", "return", "None", "debug_assert!(", "YearFlags", "from_year(", "v1", "==", "v3", "v4", "v1", "<<", "13", "|", "v2", "<<", "4", "as", "i32", "|", "v3", "as", "i32", "match", "v4", "&", "OL_MASK", "<=", "MAX_OL", "true", "=>", "Some(", "NaiveDate", "from_yof(", "v4", "false", "=>", "None"] := by decide +kernel
+
+/-- callee src/naive/date/mod.rs:fn from_ymd_opt -/
+theorem callee_src_naive_date_mod_rs_fn_from_ymd_opt : C14_callee_src_naive_date_mod_rs_fn_from_ymd_opt =
+    ["v1", "i32", "v2", "u32", "v3", "u32", "->", "Option", "<", "NaiveDate", ">", "v4", "YearFlags", "from_year(", "v1", "if", "Some(", "v5", "Mdf", "new(", "v2", "v3", "v4", "NaiveDate", "from_mdf(", "v1", "v5", "else", "None"] := by decide +kernel
+
+/-- callee src/naive/date/mod.rs:fn from_yo_opt -/
+theorem callee_src_naive_date_mod_rs_fn_from_yo_opt : C14_callee_src_naive_date_mod_rs_fn_from_yo_opt =
+    ["v1", "i32", "v2", "u32", "->", "Option", "<", "NaiveDate", ">", "v3", "YearFlags", "from_year(", "v1", "NaiveDate", "from_ordinal_and_flags(", "v1", "v2", "v3"] := by decide +kernel
+
+/-- callee src/naive/date/mod.rs:fn weeks_from -/
+theorem callee_src_naive_date_mod_rs_fn_weeks_from : C14_callee_src_naive_date_mod_rs_fn_weeks_from =
+    ["&", "self", "v1", "Weekday", "->", "i32", "self", "ordinal(", "as", "i32", "-", "self", "weekday(", "days_since(", "v1", "as", "i32", "+", "6", "/", "7"] := by decide +kernel
+
+/-- callee src/naive/datetime/mod.rs:fn and_utc -/
+theorem callee_src_naive_datetime_mod_rs_fn_and_utc : C14_callee_src_naive_datetime_mod_rs_fn_and_utc =
+    ["&", "self", "->", "DateTime", "<", "Utc", ">", "DateTime", "from_naive_utc_and_offset(", "*", "self", "Utc"] := by decide +kernel
+
+/-- callee src/naive/datetime/mod.rs:fn checked_sub_offset -/
+theorem callee_src_naive_datetime_mod_rs_fn_checked_sub_offset : C14_callee_src_naive_datetime_mod_rs_fn_checked_sub_offset =
+    ["self", "v1", "FixedOffset", "->", "Option", "<", "NaiveDateTime", ">", "let(", "v2", "v3", "self", "v2", "overflowing_sub_offset(", "v1", "v4", "match", "v3", "-", "1", "=>", "try_opt!(", "self", "v4", "pred_opt(", "1", "=>", "try_opt!(", "self", "v4", "succ_opt(", "v5", "=>", "self", "v4", "Some(", "NaiveDateTime", "v4", "v2"] := by decide +kernel
+
+/-- callee src/naive/internals.rs:fn from_year -/
+theorem callee_src_naive_internals_rs_fn_from_year : C14_callee_src_naive_internals_rs_fn_from_year =
+    ["v1", "i32", "->", "YearFlags", "v1", "v1", "rem_euclid(", "400", "YearFlags", "from_year_mod_400(", "v1"] := by decide +kernel
+
+/-- callee src/naive/internals.rs:fn from_year_mod_400 -/
+theorem callee_src_naive_internals_rs_fn_from_year_mod_400 : C14_callee_src_naive_internals_rs_fn_from_year_mod_400 =
+    ["v1", "i32", "->", "YearFlags", "YEAR_TO_FLAGS", "v1", "as", "usize"] := by decide +kernel
+
+/-- callee src/naive/internals.rs:fn isoweek_delta -/
+theorem callee_src_naive_internals_rs_fn_isoweek_delta : C14_callee_src_naive_internals_rs_fn_isoweek_delta =
+    ["&", "self", "->", "u32", "YearFlags(", "v1", "*", "self", "v2", "v1", "&", "7", "as", "u32", "if", "v2", "<", "3", "v2", "+=", "7", "v2"] := by decide +kernel
+
+/-- callee src/naive/internals.rs:fn ndays -/
+theorem callee_src_naive_internals_rs_fn_ndays : C14_callee_src_naive_internals_rs_fn_ndays =
+    ["&", "self", "->", "u32", "YearFlags(", "v1", "*", "self", "366", "-", "v1", ">>", "3", "as", "u32"] := by decide +kernel
+
+/-- callee src/naive/internals.rs:fn nisoweeks -/
+theorem callee_src_naive_internals_rs_fn_nisoweeks : C14_callee_src_naive_internals_rs_fn_nisoweeks =
+    ["&", "self", "->", "u32", "YearFlags(", "v1", "*", "self", "52", "+", "1030", ">>", "v1", "as", "usize", "&", "1"] := by decide +kernel
+
+/-- callee src/naive/internals.rs:fn ordinal_and_flags -/
+theorem callee_src_naive_internals_rs_fn_ordinal_and_flags : C14_callee_src_naive_internals_rs_fn_ordinal_and_flags =
+    ["&", "self", "->", "Option", "<", "i32", ">", "v1", "self", ">>", "3", "match", "MDL_TO_OL", "v1", "as", "usize", "XX", "=>", "None", "v2", "=>", "Some(", "self", "as", "i32", "-", "v2", "as", "i32", "<<", "3"] := by decide +kernel
+
+/-- callee src/naive/time/mod.rs:fn from_hms_nano_opt -/
+theorem callee_src_naive_time_mod_rs_fn_from_hms_nano_opt : C14_callee_src_naive_time_mod_rs_fn_from_hms_nano_opt =
+    ["v1", "u32", "v2", "u32", "v3", "u32", "v4", "u32", "->", "Option", "<", "NaiveTime", ">", "if(", "v1", ">=", "24", "||", "v2", ">=", "60", "||", "v3", ">=", "60", "||", "v4", ">=", "1000000000", "&&", "v3", "!=", "59", "||", "v4", ">=", "2000000000", "return", "None", "v5", "v1", "*", "3600", "+", "v2", "*", "60", "+", "v3", "Some(", "NaiveTime", "v5", "v6", "v4"] := by decide +kernel
+
+/-- callee src/offset/fixed.rs:fn east_opt -/
+theorem callee_src_offset_fixed_rs_fn_east_opt : C14_callee_src_offset_fixed_rs_fn_east_opt =
+    ["v1", "i32", "->", "Option", "<", "FixedOffset", ">", "if", "-", "86400", "<", "v1", "&&", "v1", "<", "86400", "Some(", "FixedOffset", "v2", "v1", "else", "None"] := by decide +kernel
+
+/-- callee src/offset/fixed.rs:fn local_minus_utc -/
+theorem callee_src_offset_fixed_rs_fn_local_minus_utc : C14_callee_src_offset_fixed_rs_fn_local_minus_utc =
+    ["&", "self", "->", "i32", "self", "v1"] := by decide +kernel
+
+/-- callee src/offset/mod.rs:fn from_local_datetime -/
+theorem callee_src_offset_mod_rs_fn_from_local_datetime : C14_callee_src_offset_mod_rs_fn_from_local_datetime =
+    ["&", "self", "v1", "&", "NaiveDateTime", "->", "MappedLocalTime", "<", "DateTime", "<", "Self", ">>", "self", "offset_from_local_datetime(", "v1", "and_then(", "|", "v2", "|", "v1", "checked_sub_offset(", "v2", "fix(", "map(", "|", "v3", "|", "DateTime", "from_naive_utc_and_offset(", "v3", "v2"] := by decide +kernel
+
+/-- callee src/time_delta.rs:fn try_seconds -/
+theorem callee_src_time_delta_rs_fn_try_seconds : C14_callee_src_time_delta_rs_fn_try_seconds =
+    ["v1", "i64", "->", "Option", "<", "TimeDelta", ">", "TimeDelta", "new(", "v1", "0"] := by decide +kernel
+
+/-- callee src/weekday.rs:fn days_since -/
+theorem callee_src_weekday_rs_fn_days_since : C14_callee_src_weekday_rs_fn_days_since =
+    ["&", "self", "v1", "Weekday", "->", "u32", "v2", "*", "self", "as", "u32", "v3", "v1", "as", "u32", "if", "v2", "<", "v3", "7", "+", "v2", "-", "v3", "else", "v2", "-", "v3"] := by decide +kernel
+
 end Chrono.Pins.C14
